@@ -111,8 +111,8 @@ def check_generated_kernels(ctx):
         tol = W.TOL_T * (10 if meth == 'ir' else 1) if api == 'torch' else NP_TOL * max(1, n * m)
         worst[(api, meth)] = max(worst.get((api, meth), 0.0), d / scale)
         if not d <= tol * scale:
-            ctx.alarm('correspondence', 'the kernel regenerated from the source (%s %s) differs from the implementation\'s kernel by %.3g '
-                      '(%dx%d z=%g dx=%g lam=%g)' % (api, meth, d, n, m, z, dx, lam))
+            ctx.alarm('correspondence', 'the generated kernel model (Generated/WaveKernels.lean, %s %s) differs from the implementation\'s '
+                      'kernel by %.3g (%dx%d z=%g dx=%g lam=%g)' % (api, meth, d, n, m, z, dx, lam))
     ctx.extra['max_generated_kernel_impl_difference'] = {'%s/%s' % k: v for k, v in worst.items()}
     check_generated_field_utils(ctx)
 
@@ -167,5 +167,5 @@ def check_generated_field_utils(ctx):
                 if key == 'amp_phase' and on_cut:
                     d = min(d, abs(abs(x - y) - 2 * math.pi))
                 if not d <= 1e-9 * max(1.0, abs(x)):
-                    ctx.alarm('correspondence', 'the %s regenerated from the source differs from the implementation: %r vs %r '
+                    ctx.alarm('correspondence', 'the generated model of %s (Generated/WaveKernels.lean) differs from the implementation: %r vs %r '
                               '(u=%r a=%r amp=%g phase=%g lam=%g)' % (key, y, x, u, a, amp, ph, lam))
